@@ -112,7 +112,7 @@ PROPS["C11"] = dict(
                 "lemma_cut_exact composes writer and reader: what write_sauce_info appended is exactly what is cut.",
 )
 PROPS["C02"] = dict(
-    units=["sauce", "xbin_load", "fonts", "bin_load", "idf_load", "tnd_load", "tdf_load", "icy_load", "buf_sauce", "palette_load"],
+    units=["sauce", "xbin_load", "fonts", "bin_load", "idf_load", "tnd_load", "tdf_load", "icy_load", "buf_sauce", "palette_load", "buf_new"],
     trusted_base=LOADER_TRUST,
     unverified_remainder=["IcyDraw (unit icy_load): read_utf8_encoded_string and the two layer-chunk blocks of load_buffer (first chunk: title, fixed header, picture or first rows of cells; continuation chunk: further rows / picture bytes) are sliced out of the function and proved total on every payload up to 1 GiB, with the declared layer size capped at 65535 x 65535 before rows are allocated; NOT decided: the chunk dispatch itself (PNG decoder callbacks, zTXt, base64, the regex on the chunk name, `get_mut(layer_num)`, the ICED / PALETTE / SAUCE / FONT arms - FONT calls BitFont::from_bytes, proved in unit fonts), (both further defects a sub-agent saw on the clean tree - Buffer::from_bytes on a path without extension and Palette::load_palette(Ase) = todo!() - are now obligations of units sauce and palette_load and were repaired)", "Palette::load_palette: only the dispatch over the formats is decided (no reachable panic macro, ASE returns an error); the five regex-driven text parsers are opaque arms (rule ARMBODY)",
                           "text formats load through parse_with_parser -> an emulation on a non-terminal buffer (C01's unit covers terminal buffers)"],
@@ -195,10 +195,10 @@ PROPS["C06"] = dict(
 
 
 PROPS["C05"] = dict(
-    units=["xbin_load", "bin_load", "xbin_save", "idf_load", "idf_save", "tnd_load", "tnd_save", "sauce", "buf_sauce"],
+    units=["xbin_load", "bin_load", "xbin_save", "idf_load", "idf_save", "tnd_load", "tnd_save", "sauce", "buf_sauce", "buf_new"],
     kani_quick=["c18_attr_byte_roundtrip", "c18_attr_tuple_roundtrip"],
     trusted_base=LOADER_TRUST + [
-        "Buffer::new / Layer::new / Line::create: one unlocked visible layer pre-filled with `height` rows of `width` invisible cells (read from the code, assumed as vx_buffer_new)",
+        "Buffer::new: assumed (stub vx_buffer_new) to hold exactly one layer built by Layer::new(size); that Layer::new gives an unlocked visible layer pre-filled with `height` rows of `width` invisible cells is proved in unit buf_new (modulo derive(Default) and Vec::resize), Line::create in unit term_core",
         "Buffer::set_sauce is used by the loader units through the stub vx_set_sauce whose clauses are proved for the real function in unit buf_sauce; Palette::from_63 assignment, BitFont::create_8 / set_font / clear_font_table are opaque statements (O1) with the contracts stated in the units",
     ],
     unverified_remainder=["readers under contract: XBin, BIN, ADF, IDF (files up to 28 KiB); writers under contract: XBin (header, flags, image block, nothing after it without SAUCE), BIN, ADF (version byte, image block = the last 2*80*h bytes, row-major) and IDF (screen block == the picture's cells under the reader's record grammar, compressed or not). Tundra: reader (unit tnd_load) and writer (unit tnd_save) are both proved against one shared command grammar (prelude/tnd_specs.rs): the reader paints exactly tnd_cells(stream) row-major with colour indices that resolve to the commanded 24-bit colours (abstract palette: the clauses of Palette::insert_color_rgb proved in unit palette are assumed at the call), the writer's stream has tnd_cells == the picture's cells - for pictures whose cells are all visible and not bold and whose colour 0 is black (outside that scope the writer is NOT decided: invisible cells in the middle of a picture are skipped without a position command, bold cells compare base colours only). NOT decided: the palette / font blocks the writers emit (opaque stubs); Tundra position commands (the writer never emits them; on such files only totality is proved); SAUCE geometry of BIN files is the sauce unit's clause tagged C05 (BinaryText width = 2 * file type byte)",
